@@ -14,8 +14,7 @@ R_SER_INTO = Rule("B6", r"bincode::serialize_into\(&mut bytes, &data\)", "bincod
 R_OSSEND = Rule("B5", r"Ok\(self\.os_sender\.send\(\s*(&bytes\[\.\.\]),\s*(\w+),\s*(\w+),?\s*\)\?\)",
                 r"self.os_sender.send_converted(\1, \2, \3, tls)",
                 "platform send (unit U2) + `?`/From<UnixError> conversion -> stub that logs what it was handed", min_count=1)
-R_DESER = Rule("B7", r"bincode::deserialize\(&self\.data\[\.\.\]\)", "bincode_deserialize(&self.data[..], tls)",
-               "dependency: bincode + the user's Deserialize impls", min_count=1)
+R_DESER = AppendArg("B7", r"bincode::deserialize\(", "tls", "dependency: bincode + the user's Deserialize impls", rename="bincode_deserialize")
 R_SER_USIZE = Rule("D6a", r"\bindex\.serialize\(serializer\)", "serialize_usize(index, serializer)", "serde: usize::serialize")
 R_DE_USIZE = Rule("D6b", r"Deserialize::deserialize\(deserializer\)", "deserialize_usize(deserializer)", "serde: usize::deserialize (any value)")
 R_DE_CUSTOM = Rule("D6c", r"\bD::Error::custom\(", "de_error_custom::<D>(", "serde::de::Error::custom")
@@ -43,8 +42,8 @@ msg_to = Fn(F, ["impl OpaqueIpcMessage", "to"], ret="r", extra_params=TLS,
                "final(tls).de_channels@ == old(tls).de_channels@ && final(tls).de_regions@ == old(tls).de_regions@\n"
                "&& final(tls).ser_channels@ == old(tls).ser_channels@ && final(tls).ser_regions@ == old(tls).ser_regions@", ["C14", "C16"]),
     ],
-    rules=[MutSelf(), R_TAKE, T_DE_CH, T_DE_RG, Rule("B7", r"bincode::deserialize\(&self\.data\[\.\.\]\)", "bincode_deserialize(&this.data[..], tls)", "dependency: bincode + the user's Deserialize impls"),
-           Rule("B7b", r"bincode::deserialize_from\(&self\.data\[\.\.\]\)", "bincode_deserialize_from(&this.data[..], tls)", "dependency: bincode's reader entry point (not total)")],
+    rules=[MutSelf(), R_TAKE, T_DE_CH, T_DE_RG, AppendArg("B7", r"bincode::deserialize\(", "tls", "dependency: bincode + the user's Deserialize impls", rename="bincode_deserialize"),
+           AppendArg("B7b", r"bincode::deserialize_from\(", "tls", "dependency: bincode's reader entry point (not total)", rename="bincode_deserialize_from")],
     safety_props=["C16", "C18"])
 
 ser_sender = Fn(F, ["serialize_os_ipc_sender"], ret="r", extra_params=TLS,
@@ -127,7 +126,7 @@ bytes_recv = Fn(F, ["impl IpcBytesReceiver", "recv"], ret="r", extra_params=G,
                     "&& (r matches Ok(d) ==> final(g).last().ok && d@ == final(g).last().data)\n"
                     "&& (r is Err ==> !final(g).last().ok)", ["C01", "C03"])],
     rules=[AppendArg("B50", r"self\.os_receiver\.recv\(", GA, "platform recv stub (logs what it handed up)", min_count=1),
-           Rule("D22", r"Err\(err\.into\(\)\)", "Err(into_ipc_error(err))", "`.into()` at type IpcError (From impl of unit U4b)", min_count=1)],
+           Rule("D22", r"Err\(err\.into\(\)\)", "Err(into_ipc_error(err))", "`.into()` at type IpcError (From impl of unit U4b)")],
     safety_props=["C18"])
 bytes_try_recv = Fn(F, ["impl IpcBytesReceiver", "try_recv"], ret="r", extra_params=G,
     ensures=[Clause("ipc.IpcBytesReceiver.try_recv/ensures.raw_payload_or_converted_error",
@@ -135,7 +134,7 @@ bytes_try_recv = Fn(F, ["impl IpcBytesReceiver", "try_recv"], ret="r", extra_par
                     "&& (r matches Ok(d) ==> final(g).last().ok && d@ == final(g).last().data)\n"
                     "&& (r is Err ==> !final(g).last().ok)", ["C01", "C10"])],
     rules=[AppendArg("B50", r"self\.os_receiver\.try_recv\(", GA, "platform try_recv stub", min_count=1),
-           Rule("D22", r"Err\(err\.into\(\)\)", "Err(into_try_recv_error(err))", "`.into()` at type TryRecvError", min_count=1)],
+           Rule("D22", r"Err\(err\.into\(\)\)", "Err(into_try_recv_error(err))", "`.into()` at type TryRecvError")],
     safety_props=["C18"])
 
 UNIT = Unit(
